@@ -62,12 +62,12 @@ def replaceWithCapturesInContext (capsAt : Nat → Option Caps) (names : List (B
     (bytes : Bytes) (rs re : Nat) (atEnd : Bool) (tmpl : Bytes) : RState :=
   let step := fun (st : RState) (c : Caps) =>
     let m := (c.get 0).getD ⟨0, 0⟩
-    if beyondRange re atEnd m.s then (st, false)
+    -- a match that starts beyond the range, or (multi-line look-ahead) reaches beyond it, ends the loop
+    if beyondRange re atEnd m.s || decide (m.e > re) then (st, false)
     else
       let dst1 := st.dst ++ slice bytes st.lastMatch m.s
       let exp := interpolate (envOf bytes names c) tmpl
-      -- `last_match = min(m.end(), range.end)`: a match may reach beyond the range in multi-line mode
-      ({ lastMatch := min m.e re, dst := dst1 ++ exp,
+      ({ lastMatch := m.e, dst := dst1 ++ exp,
          spans := st.spans ++ [⟨dst1.length, dst1.length + exp.length⟩] }, true)
   let st := capturesIterAt capsAt bytes.length rs step ⟨rs, [], []⟩
   let end_ := min bytes.length re
